@@ -77,7 +77,7 @@ func obsDiff(a, b *proto.Obs) string {
 
 // buildHistories derives the biased histories of a case: fail->succeed, long->short->long,
 // repeated identical steps, plus the rapid-drawn ones.
-func buildHistories(cs *lab.Case) [][]proto.Step {
+func buildHistories(cs *lab.Case, long int) [][]proto.Step {
 	var out [][]proto.Step
 	for e := range cs.G.Rules {
 		var acc, rej, rejTok []string
@@ -107,6 +107,40 @@ func buildHistories(cs *lab.Case) [][]proto.Step {
 		}
 	}
 	out = append(out, cs.Hist...)
+	// a long life: hundreds (thorough: tens of thousands) of unreported parses, then the
+	// usual comparison with fresh instances - whatever counts Resets or parses must not wrap
+	if cs.ID%4 == 1 && len(cs.Inputs) >= 3 {
+		// Two long texts far apart, with a fixed number of parses of short texts in between:
+		// whatever the long parse left behind at far offsets is not touched by the short ones
+		// and must still be gone when the other long text arrives. The distances are the
+		// periods of 8- and 16-bit counters, and their neighbours.
+		ins := append([]proto.QStr{}, cs.Inputs...)
+		sort.SliceStable(ins, func(i, j int) bool { return len(ins[i]) > len(ins[j]) })
+		var longs []proto.QStr
+		for _, in := range ins {
+			if len(in) <= 60 && len(longs) < 2 {
+				longs = append(longs, in)
+			}
+		}
+		short := ins[len(ins)-1]
+		if len(longs) == 2 && len(short) < len(longs[1]) {
+			gaps := []int{255, 256, 257}
+			if long > 1000 {
+				gaps = append(gaps, 65535, 65536)
+			}
+			for _, gap := range gaps {
+				var h []proto.Step
+				for rep := 0; rep < 3; rep++ {
+					h = append(h, proto.Step{Entry: 0, Input: longs[rep%2]})
+					for i := 0; i < gap-1; i++ {
+						h = append(h, proto.Step{Entry: i % len(cs.G.Rules), Input: short, Quiet: true})
+					}
+				}
+				h = append(h, proto.Step{Entry: 0, Input: longs[1]})
+				out = append(out, h)
+			}
+		}
+	}
 	// the largest input that still fits a 16-bit instance: 65535 runes (plus the sentinel),
 	// and one less; positions near the end need every bit of the type
 	if cs.ID%4 == 0 && len(cs.Inputs) > 0 {
@@ -252,6 +286,9 @@ func evalHistories(c *drv.Ctx, cases []*lab.Case, hists [][][]proto.Step, modes 
 			if si >= len(o.Resp.Obs) {
 				break
 			}
+			if s.Quiet {
+				continue
+			}
 			fo := outs[fresh[key{ref.ci, effEntry(s), string(s.Input)}]]
 			if len(fo.Resp.Obs) == 0 {
 				continue
@@ -326,7 +363,7 @@ func runC12(c *drv.Ctx) error {
 		firstID += len(cases)
 		hists := make([][][]proto.Step, len(cases))
 		for i, cs := range cases {
-			hists[i] = buildHistories(cs)
+			hists[i] = buildHistories(cs, c.Pick(300, 70000))
 			c.Stats.Class("profile_" + cs.Profile)
 		}
 		res, err := evalHistories(c, cases, hists, c12Modes, true)
@@ -475,6 +512,9 @@ func shrinkHist(c *drv.Ctx, prop string, cs *lab.Case, h []proto.Step, ev *histE
 			st += fmt.Sprintf(" then Parse(%s) without Reset", cur.Case.G.Rules[*s.Again].Name)
 		}
 		steps = append(steps, st)
+	}
+	if len(steps) > 24 {
+		steps = append(append(append([]string{}, steps[:4]...), fmt.Sprintf("... %d more steps ...", len(steps)-12)), steps[len(steps)-8:]...)
 	}
 	opt := ""
 	if cur.Variant != "" && cur.Variant != "v0" {
